@@ -67,14 +67,4 @@ example : (maxHashForScaled 1000 * 1000 - 2^64) * 2^52 < 1000 * 2^52 + 2^64 ∧
     (2^64 - maxHashForScaled 1000 * 1000) * 2^52 < 1000 * 2^52 + 2^64 :=
   ceiling_close 1000 (by decide) (by decide)
 
-/-- the same bound with `Int.natAbs` -/
-theorem ceiling_close_natAbs : ∀ s, 2 ≤ s → s < 2^64 →
-    Int.natAbs (((maxHashForScaled s * s : Nat) : Int) - 2^64) * 2^52 < s * 2^52 + 2^64 := by
-  intro s hs hlt
-  have ⟨a, b⟩ := ceiling_close s hs hlt
-  generalize maxHashForScaled s * s = K at *
-  omega
-example : Int.natAbs (((maxHashForScaled 3 * 3 : Nat) : Int) - 2^64) * 2^52 < 3 * 2^52 + 2^64 :=
-  ceiling_close_natAbs 3 (by decide) (by decide)
-
 end Sourmash.C14
